@@ -77,9 +77,10 @@ CHECKS = {
         "level_note": "map iteration orders are sampled by repetition, not enumerated; the stage folder is a sibling of the build directory as in wharf's tests.",
         "rule": ("rapid draws (old tree, derivation ops -> new tree, compression, optimize?). Non-trivial: the decoded patch has >=1 "
                  "whole-file series to a different path AND (>=1 overlay file or >=1 ghost). Distinct: SHA-1 of the spec."),
-        "assumptions": ["in a fifth of the cases the full application is preceded by a whitelisted application of the same patch onto the same bowl object (Bowl.Resume(nil) keeps what is recorded): the commit must still give exactly the new build",
+        "assumptions": ["one case in four diffs containers whose directory lists are reversed (children before parents, as a container walked from a zip may be): the result must not depend on the order in which a container lists its directories",
+                        "in a fifth of the cases the full application is preceded by a whitelisted application of the same patch onto the same bowl object (Bowl.Resume(nil) keeps what is recorded): the commit must still give exactly the new build",
                         "names ending in .butler-rename-N are never generated (implicit precondition of the commit phase)"],
-        "required_classes": {"quick": ["rel:swap", "rel:chain", "rel:rename-or-dup-without-original", "rel:source-of-rename-also-patched", "commit:overlay", "commit:ghost", "kindchange:d->f", "kindchange:f->d", "kindchange:d->l"],
+        "required_classes": {"quick": ["containers:directories-listed-children-first", "rel:swap", "rel:chain", "rel:rename-or-dup-without-original", "rel:source-of-rename-also-patched", "commit:overlay", "commit:ghost", "kindchange:d->f", "kindchange:f->d", "kindchange:d->l"],
                              "thorough": ["rel:swap", "rel:chain", "rel:rename-or-dup-without-original", "rel:source-of-rename-also-patched", "commit:overlay", "commit:ghost", "series:bsdiff"]},
         "stages": [rapid("inplace", "TestProp", 10000, 200000, qs=16, ts=16, qt=600, tt=5400)],
     },
@@ -156,9 +157,10 @@ CHECKS = {
         "level_note": "the old signature is the stream WritePatch emits when the old build is the 'new' side; damage is to regular files only.",
         "rule": ("rapid draws (build pair, compression, optimized?, 0-2 damages). Non-trivial: a damage lands in a block that some op of the "
                  "decoded patch reads. Distinct: SHA-1 of the spec."),
-        "assumptions": ["one case in ten gives the safekeeper a signature stream cut inside its magic (unreadable under every compression setting): the only verdict then is 'error, or exactly the new build'",
+        "assumptions": ["every rsync series of the case's patch is also applied through wsync.Context.ApplyPatch (the channel entry point, operations queued beforehand) with a safekeeper pool of its own over the damaged build: nil only with exactly the new file, no rejection of an undamaged build; a new pool is opened after every error",
+                        "one case in ten gives the safekeeper a signature stream cut inside its magic (unreadable under every compression setting): the only verdict then is 'error, or exactly the new build'",
                         ],
-        "required_classes": {"quick": ["reuse:blockrange", "reuse:wholefile", "reuse:bsdiff", "outcome:damaged-rejected", "outcome:undamaged-accepted",
+        "required_classes": {"quick": ["route:wsync.ApplyPatch-as-well", "reuse:blockrange", "reuse:wholefile", "reuse:bsdiff", "outcome:damaged-rejected", "outcome:undamaged-accepted",
                                         "damage:truncate-at-block-boundary", "damage:extend-inside-last-block"],
                              "thorough": ["reuse:blockrange", "reuse:wholefile", "reuse:bsdiff", "outcome:damaged-rejected", "outcome:undamaged-accepted",
                                           "damage:truncate-at-block-boundary", "damage:extend-inside-last-block", "damage:extend-file-of-exact-block-multiple", "damage:delete"]},
@@ -201,9 +203,10 @@ CHECKS = {
         "level_note": "trusted: crypto/md5, the reference weak hash written from the format description.",
         "rule": ("rapid draws (new tree, old-build kind, compression). Non-trivial: a file with >=2 blocks and a short tail, or an empty file "
                  "beside a non-empty one. Distinct: SHA-1 of the spec."),
-        "assumptions": ["one case in eight is a single-file build: the build is one regular file, walked, signed, diffed and validated through its path (pools.New; the harness opens every build through pools.New, as butler does)",
+        "assumptions": ["one case in four signs stand-alone over a pool that is not handed over fresh: its file 0 has been opened and 4 bytes of it read (builds without files excepted)",
+                        "one case in eight is a single-file build: the build is one regular file, walked, signed, diffed and validated through its path (pools.New; the harness opens every build through pools.New, as butler does)",
                         ],
-        "required_classes": {"quick": ["file:exact-block-multiple", "tree:empty-file-beside-non-empty", "comp:gzip", "comp:brotli", "tree:no-files"],
+        "required_classes": {"quick": ["producer:stand-alone-on-a-used-pool", "file:exact-block-multiple", "tree:empty-file-beside-non-empty", "comp:gzip", "comp:brotli", "tree:no-files"],
                              "thorough": ["file:exact-block-multiple", "tree:empty-file-beside-non-empty", "comp:gzip", "comp:brotli", "tree:no-files", "tree:symlinks"]},
         "stages": [rapid("signature", "TestProp", 4800, 192000, qs=16, ts=16, qt=600, tt=5400)],
     },
@@ -222,8 +225,8 @@ CHECKS = {
         "level_note": "differing offsets are checked at the first and last differing byte of every 64KiB block; what 'deviates' means is what the OS shows at the signed paths.",
         "rule": ("rapid draws (tree, damage sequence). Non-trivial: a deviating directory whose damage includes a flip at a block-boundary class or "
                  "a length change crossing a block boundary. Distinct: SHA-1 of the spec."),
-        "assumptions": [],
-        "required_classes": {"quick": ["dir:identical", "dir:deviates", "damage:hides-subtree", "damage:length-change-crossing-block-boundary", "damage:flip-at-block-boundary-class",
+        "assumptions": ["every case is also validated in the default mode (no wounds file, no fail-fast, no healer: the printer consumer), half of the time with a zero-value state.Consumer, half with one that has OnMessage; verdict: HasWounds() iff the directory deviates (or an error)"],
+        "required_classes": {"quick": ["printer:zero-value-consumer", "dir:identical", "dir:deviates", "damage:hides-subtree", "damage:length-change-crossing-block-boundary", "damage:flip-at-block-boundary-class",
                                        "damage:same-weak-hash", "damage:contiguous-2..64-blocks", "damage:contiguous->64-blocks"],
                              "thorough": ["dir:identical", "dir:deviates", "damage:hides-subtree", "damage:length-change-crossing-block-boundary", "damage:flip-at-block-boundary-class", "damage:retarget"]},
         "stages": [rapid("wounds", "TestProp", 28800, 768000, qs=16, ts=16, qt=600, tt=5400),
@@ -241,8 +244,9 @@ CHECKS = {
         "level_note": "interleavings of validator, wound channel and healer are sampled, not enumerated.",
         "rule": ("rapid draws (tree, damage sequence, GOMAXPROCS, jitter bytes). Non-trivial: >=1 file healed and >=1 directory or symlink wound. "
                  "Distinct: SHA-1 of the spec."),
-        "assumptions": ["the healing archive is a zip of the pristine build (wharf's own stored zip, as in its scenario tests, or a standard deflate zip)"],
-        "required_classes": {"quick": ["dir:already-valid", "dir:healed", "archive:deflate-zip", "damage:hides-subtree", "damage:kind-swap:d->link", "damage:kind-swap:d->file"],
+        "assumptions": ["a quarter of the cases heal a second build (three files of 70000-200000 bytes, directory missing) again and again through another ValidatorContext in the same process while the case's directory is healed; both must come out right",
+                        "the healing archive is a zip of the pristine build (wharf's own stored zip, as in its scenario tests, or a standard deflate zip)"],
+        "required_classes": {"quick": ["process:another-build-healed-at-the-same-time", "dir:already-valid", "dir:healed", "archive:deflate-zip", "damage:hides-subtree", "damage:kind-swap:d->link", "damage:kind-swap:d->file"],
                              "thorough": ["dir:already-valid", "dir:healed", "damage:hides-subtree", "damage:kind-swap:d->link", "damage:kind-swap:d->file", "damage:whole-directory-delete", "damage:whole-directory-empty"]},
         "stages": [rapid("heal", "TestProp", 9600, 192000, qs=16, ts=16, qt=600, tt=5400, schedule_dependent=True)],
     },
@@ -285,8 +289,8 @@ CHECKS = {
         "level_note": "wounds emitted for blocks beyond the signed length are outside the statement and ignored by the tiling oracle.",
         "rule": ("rapid draws (files, written variants, slicings, mode). Non-trivial: a write that straddles a block boundary together with a bad "
                  "block that is not the first (error mode), or a differing block that is not the first (wound modes). Distinct: SHA-1 of the spec."),
-        "assumptions": [],
-        "required_classes": {"quick": ["mode:error", "mode:wounds", "mode:aggregate", "bad-block:not-first", "bad-block:beyond-signed-count", "bad-block:same-weak-hash", "write:straddles-block-boundary"],
+        "assumptions": ["wound modes, one file in five: the inner pool's writer takes every byte and then fails its Close; the wounds and markers of the file are owed all the same (whether Close reports the error is not judged here)"],
+        "required_classes": {"quick": ["inner-pool:close-fails", "mode:error", "mode:wounds", "mode:aggregate", "bad-block:not-first", "bad-block:beyond-signed-count", "bad-block:same-weak-hash", "write:straddles-block-boundary"],
                              "thorough": ["mode:error", "mode:wounds", "mode:aggregate", "bad-block:not-first", "bad-block:beyond-signed-count", "write:straddles-block-boundary"]},
         "stages": [rapid("validatingpool", "TestProp", 48000, 2000000, qs=16, ts=16, qt=600, tt=5400),
                    rapid("viapatcher", "TestViaPatcher", 4800, 192000, qs=16, ts=16, qt=600, tt=5400),
@@ -310,8 +314,8 @@ CHECKS = {
         "level_note": "decompressor internals (savior) are exercised only through wharf's reader.",
         "rule": ("rapid draws (compression, message list, save pattern). evaluations = sequences, sub_evaluations = 1 + checkpoints resumed. "
                  "Non-trivial: a sequence with a checkpoint whose source offset lags the message offset under a real compressor. Distinct: SHA-1 of the spec."),
-        "assumptions": [],
-        "required_classes": {"quick": ["checkpoint:after-last-message", "checkpoint:source-lags-message-offset", "checkpoints:popped-some-messages-later", "reader:rewound-with-Resume(nil)", "second-reader:had-read-messages-before-Resume", "msg:around-32KiB-buffer", "comp:gzip", "comp:brotli"],
+        "assumptions": ["a quarter of the cases put the stream behind 1-100000 other bytes in its source; every reader is then built on the source resumed at that offset"],
+        "required_classes": {"quick": ["source:stream-starts-behind-other-bytes", "checkpoint:after-last-message", "checkpoint:source-lags-message-offset", "checkpoints:popped-some-messages-later", "reader:rewound-with-Resume(nil)", "second-reader:had-read-messages-before-Resume", "msg:around-32KiB-buffer", "comp:gzip", "comp:brotli"],
                              "thorough": ["checkpoint:after-last-message", "checkpoint:source-lags-message-offset", "checkpoints:popped-some-messages-later", "msg:around-32KiB-buffer", "msg:>4MiB", "comp:gzip", "comp:brotli"]},
         "stages": [rapid("wire", "TestProp", 9600, 320000, qs=16, ts=16, qt=600, tt=5400)],
     },
@@ -333,9 +337,10 @@ CHECKS = {
         "level_note": "the old-file reader never returns short reads (bytes.Reader / os.File), like the readers the overlay bowl uses.",
         "rule": ("rapid draws (entropy, runs, cuts, slices, actions). Non-trivial: the overlay contains >=1 SKIP and >=1 FRESH and the run had a "
                  "flush or a session break. Distinct: SHA-1 of the spec."),
-        "assumptions": ["at most 24 sessions per case (each allocates two 128KiB buffers)",
+        "assumptions": ["direct stage, a third of the cases: some writes (drawn pattern) are not Write calls but io.Copy from a reader that has nothing but Read, so io.Copy uses whatever the writer offers (ReadFrom if it has one, 32 KiB Write calls if not)",
+                        "at most 24 sessions per case (each allocates two 128KiB buffers)",
                         "bowl stage, a quarter of the cases: the old file on disk is longer than the old build's container says (appended to after install); the overlay is computed against and applied to what is on disk"],
-        "required_classes": {"quick": ["op:skip", "op:fresh", "sessions:>1", "flush:some", "entropy:periodic", "new:shorter", "new:longer", "bowl:session-wrote-after-the-checkpoint-it-is-resumed-from"],
+        "required_classes": {"quick": ["feed:io.Copy-after-other-writes", "op:skip", "op:fresh", "sessions:>1", "flush:some", "entropy:periodic", "new:shorter", "new:longer", "bowl:session-wrote-after-the-checkpoint-it-is-resumed-from"],
                              "thorough": ["op:skip", "op:fresh", "sessions:>1", "flush:some", "entropy:periodic", "entropy:constant", "new:shorter", "new:longer", "new:empty"]},
         "stages": [rapid("overlay", "TestProp", 16000, 400000, qs=16, ts=16, qt=600, tt=5400),
                    rapid("viabowl", "TestViaBowl", 8000, 160000, qs=16, ts=16, qt=600, tt=5400)],
